@@ -448,9 +448,12 @@ impl FromStr for List {
     fn from_str(s: &str) -> Result<List, Error> {
         let mut lexer = Lexer::with_code(s);
         let mut parser = Parser::new(&mut lexer);
-        let list = unwrap_ready(parser.maybe_compound_list())?;
-        parser.ensure_no_unread_here_doc()?;
-        Ok(list)
+        unwrap_ready(async {
+            let list = parser.maybe_compound_list().await?;
+            reject_redundant_token(&mut parser).await?;
+            parser.ensure_no_unread_here_doc()?;
+            Ok(list)
+        })
     }
 }
 
